@@ -439,6 +439,48 @@ TRUSTED = ["trace keys are -1 (initial state) and non-negative event times; star
 
 
 # ------------------------------------------------------------------------------- bounded layer
+def crafted_same_endpoints():
+    """one durative action with TWO conditions over the same end points whose intervals differ in openness (every pair of closed / open /
+    left-open / right-open, both orders of declaration), with happenings exactly at the end points: the action's own start and end effects, or
+    another action scheduled at the start instant, flip the fluents the conditions read"""
+    from unified_planning.shortcuts import (Problem, Fluent, BoolType, DurativeAction, InstantaneousAction, StartTiming, EndTiming, ClosedTimeInterval,
+                                            OpenTimeInterval, LeftOpenTimeInterval, RightOpenTimeInterval)
+    kinds = (ClosedTimeInterval, OpenTimeInterval, LeftOpenTimeInterval, RightOpenTimeInterval)
+    out = []
+    for k1 in kinds:
+        for k2 in kinds:
+            if k1 is k2:
+                continue
+            for (p0, q0, own) in ((False, True, True), (True, False, True), (True, True, False), (False, False, True)):
+                pr = Problem(f"same_endpoints_{k1.__name__}_{k2.__name__}_{int(p0)}{int(q0)}{int(own)}")
+                pf, qf, done = Fluent("p", BoolType()), Fluent("q", BoolType()), Fluent("done", BoolType())
+                pr.add_fluent(pf, default_initial_value=p0)
+                pr.add_fluent(qf, default_initial_value=q0)
+                pr.add_fluent(done, default_initial_value=False)
+                a = DurativeAction("work")
+                a.set_fixed_duration(4)
+                a.add_condition(k1(StartTiming(), EndTiming()), pf)
+                a.add_condition(k2(StartTiming(), EndTiming()), qf)
+                if own:                      # the action itself establishes what was false, at its start
+                    if not p0:
+                        a.add_effect(StartTiming(), pf, True)
+                    if not q0:
+                        a.add_effect(StartTiming(), qf, True)
+                a.add_effect(EndTiming(), done, True)
+                flip = InstantaneousAction("flip")
+                flip.add_effect(pf, False)
+                setq = InstantaneousAction("setq")
+                setq.add_effect(qf, False)
+                for act in (a, flip, setq):
+                    pr.add_action(act)
+                pr.add_goal(done)
+                out.append((pr, [(Fraction(1), a, (), Fraction(4))]))
+                out.append((pr, [(Fraction(1), a, (), Fraction(4)), (Fraction(1), flip, (), None)]))
+                out.append((pr, [(Fraction(1), a, (), Fraction(4)), (Fraction(5), setq, (), None)]))
+                out.append((pr, [(Fraction(1), a, (), Fraction(4)), (Fraction(5), flip, (), None), (Fraction(1), setq, (), None)]))
+    return out
+
+
 def bounded(tier, seed):
     import warnings
     from rtc.tgen import TGen
@@ -451,17 +493,21 @@ def bounded(tier, seed):
     with warnings.catch_warnings():
         warnings.simplefilter("ignore")
         tv = TimeTriggeredPlanValidator()
-        for i in range(nprob):
-            s = seed * 100003 + i
-            g = TGen(s)
-            try:
-                pr = g.problem(f"t{s}")
-            except Exception:  # noqa
-                continue
+        def stream():
+            for k_, (pr_, plan_) in enumerate(crafted_same_endpoints()):
+                yield f"crafted{k_}", pr_, [plan_]
+            for i in range(nprob):
+                s_ = seed * 100003 + i
+                g = TGen(s_)
+                try:
+                    pr_ = g.problem(f"t{s_}")
+                except Exception:  # noqa
+                    continue
+                yield s_, pr_, [g.plan(pr_) for _ in range(nplans)]
+        for s, pr, plans_ in stream():
             if not tv.supports(pr.kind):
                 continue
-            for k in range(nplans):
-                plan = g.plan(pr)
+            for plan in plans_:
                 try:
                     want, why = tempsem.valid(pr, plan)
                 except tempsem.Ambiguous:
